@@ -509,6 +509,16 @@ def _nonzero(x):
     return np.nonzero(conc)
 
 
+@implements(np.ascontiguousarray, np.asarray, np.asanyarray, np.asfortranarray)
+def _asarray(x, dtype=None, **k):
+    # NumPy returns the SAME object (no copy) for an array that already has the requested dtype/layout: aliasing is modelled
+    if isinstance(x, SymArray) and (dtype is None or np.dtype(dtype).type is x._dt):
+        return x
+    if isinstance(x, SymArray):
+        return x.astype(dtype)
+    return np.asarray(x, dtype=dtype)
+
+
 @implements(np.unique)
 def _unique(x, *a, **k):
     if isinstance(x, SymArray):
@@ -638,6 +648,10 @@ class NPShim(types.ModuleType):
         if isinstance(x, SymArray):
             return x.astype(dtype)
         return self.array(x, dtype=dtype)
+
+    def ascontiguousarray(self, x, dtype=None, **k): return _asarray(x, dtype)
+    def asanyarray(self, x, dtype=None, **k): return _asarray(x, dtype)
+    def asfortranarray(self, x, dtype=None, **k): return _asarray(x, dtype)
 
     def logical_or(self, a, b): return _logical(np.logical_or, B.lor, a, b)
     def logical_and(self, a, b): return _logical(np.logical_and, B.land, a, b)
